@@ -23,7 +23,7 @@ fn fl(x: f64) -> Ex {
 /// (type expression, a generator tag)
 const TYPES: &[&str] = &[
     "int", "float", "rational", "number", "str", "list", "dict", "vector", "bytes", "func", "anything",
-    "nulltype", "Pt", "small", "stream", "head1",
+    "nulltype", "Pt", "small", "stream", "head1", "nonempty",
 ];
 
 fn value_of(g: &mut Gen, ty: &str) -> Ex {
@@ -59,6 +59,10 @@ fn value_of(g: &mut Gen, ty: &str) -> Ex {
             Ex::List(xs)
         }
         "stream" => Ex::Call(Box::new(var("to")), vec![int(1), int(g.rng.range(0, 3))]),
+        "nonempty" => {
+            let n = 1 + g.rng.below(3);
+            Ex::List((0..n).map(|_| int(g.rng.range(0, 9))).collect())
+        }
         _ => {
             // anything
             let t = *g.rng.pick(&["int", "str", "list", "nulltype", "float", "dict"]);
@@ -77,6 +81,7 @@ fn wrong_value_of(g: &mut Gen, ty: &str) -> Ex {
     };
     match ty {
         "small" => int(g.rng.range(10, 30)),
+        "nonempty" if g.rng.chance(1, 2) => Ex::List(vec![]),
         _ => value_of(g, other),
     }
 }
@@ -130,6 +135,19 @@ pub fn generate(seed: u64, fault_free: bool) -> TypedOut {
         )],
     );
     if g.push("satisfying-type", declare("head1", head1), vec![]).is_err() {
+        return finish(g, nontrivial);
+    }
+
+    // `nonempty`: a satisfying type whose predicate answers with the list itself (truthy when it has
+    // elements) rather than with 0/1
+    let nonempty = call(
+        "satisfying",
+        vec![Ex::Lambda(
+            vec![lv("q")],
+            Box::new(Ex::And(Box::new(bin(var("q"), "is", var("list"))), Box::new(var("q")))),
+        )],
+    );
+    if g.push("satisfying-type", declare("nonempty", nonempty), vec![]).is_err() {
         return finish(g, nontrivial);
     }
 
@@ -195,6 +213,24 @@ pub fn generate(seed: u64, fault_free: bool) -> TypedOut {
                             Ex::Assign(false, Box::new(Lv::Ident(name, vec![Ix::Index(k)])), Box::new(int(3))),
                             vec![],
                         )
+                    }
+                    V::Stream(_) => {
+                        // writing into a stream turns it into a list: refused for a variable
+                        // annotated `stream`, fine for `anything`
+                        let i = int(g.rng.range(0, 2));
+                        if g.rng.chance(1, 2) {
+                            g.push(
+                                "stream-index-assign",
+                                Ex::Assign(false, Box::new(Lv::Ident(name, vec![Ix::Index(i)])), Box::new(int(5))),
+                                vec![],
+                            )
+                        } else {
+                            g.push(
+                                "stream-index-op-assign",
+                                Ex::OpAssign(false, Box::new(Lv::Ident(name, vec![Ix::Index(i)])), "+".into(), Box::new(int(1))),
+                                vec![],
+                            )
+                        }
                     }
                     V::Inst(..) => {
                         let v = value_of(&mut g, "anything");
@@ -413,7 +449,25 @@ pub fn generate(seed: u64, fault_free: bool) -> TypedOut {
                 let mut arms: Vec<(Lv, Ex)> = Vec::new();
                 let n = 2 + g.rng.below(4);
                 for k in 0..n {
-                    let pat = match g.rng.below(9) {
+                    let pat = match g.rng.below(12) {
+                        // chained comparison patterns, same and mixed operators, at the boundaries
+                        9 => {
+                            let lo = g.rng.range(0, 3);
+                            let ops = *g.rng.pick(&[("<", "<"), ("<=", "<"), ("<", "<="), ("<=", "<="), (">", ">="), (">=", ">")]);
+                            let (a, b) = if ops.0.starts_with('<') { (lo, lo + g.rng.range(1, 4)) } else { (lo + g.rng.range(1, 4), lo) };
+                            Lv::Cmp(
+                                vec![Lv::Lit(Box::new(int(a))), lv("pa"), Lv::Lit(Box::new(int(b)))],
+                                vec![ops.0.to_string(), ops.1.to_string()],
+                            )
+                        }
+                        10 => Lv::Cmp(
+                            vec![lv("pa"), Lv::Lit(Box::new(int(g.rng.range(0, 4))))],
+                            vec![g.rng.pick(&["<", "<=", ">", ">=", "==", "!="]).to_string()],
+                        ),
+                        11 => Lv::Cmp(
+                            vec![lv("pa"), lv("pb")],
+                            vec![g.rng.pick(&["<", "<=", ">"]).to_string()],
+                        ),
                         0 => Lv::Lit(Box::new(int(g.rng.range(0, 3)))),
                         1 => Lv::Annot(Box::new(Lv::Underscore), Some(Box::new(var(*g.rng.pick(&["int", "str", "list", "number", "small"]))))),
                         2 => Lv::Seq(vec![lv("pa"), lv("pb")], true),
@@ -480,6 +534,17 @@ pub fn generate(seed: u64, fault_free: bool) -> TypedOut {
                         Box::new(ForBody::Yield(bin(var("fa"), "+", var("fb")), None)),
                     );
                     g.push("for-pattern", e, vec![])
+                } else if g.rng.chance(1, 2) {
+                    // a catch pattern that does not match passes the thrown value on, unchanged
+                    let thrown = int(g.rng.range(0, 4));
+                    let lit = int(g.rng.range(0, 4));
+                    let inner = Ex::Try(
+                        Box::new(Ex::Throw(Box::new(thrown))),
+                        Box::new(Lv::Lit(Box::new(lit))),
+                        Box::new(Ex::Str("inner".into())),
+                    );
+                    let e = Ex::Try(Box::new(inner), Box::new(lv("outer")), Box::new(Ex::List(vec![Ex::Str("outer".into()), var("outer")])));
+                    g.push("catch-mismatch-rethrows", e, vec![])
                 } else {
                     let e = Ex::Try(
                         Box::new(Ex::Throw(Box::new(Ex::List(vec![int(1), var(&name)])))),
